@@ -1605,7 +1605,7 @@ def canon_linear_cmp(sym):
     return (out_rel, co, const, la[2] | lb[2])
 
 
-def reach_corr(fn, start, avoid_blocks=(), seed_from=None, cap=100000):
+def reach_corr(fn, start, avoid_blocks=(), seed_from=None, cap=100000, assume=()):
     """Reachability from `start` that keeps switches on one value consistent: two switches testing the same single-definition
     bool / discriminant (see _switch_key) cannot take contradictory arms on one path. `seed_from` (a block) seeds the
     assumptions with the switch edges that dominate that block - e.g. the arm in which a commit sits."""
@@ -1618,6 +1618,11 @@ def reach_corr(fn, start, avoid_blocks=(), seed_from=None, cap=100000):
             lab = g["label"]
             t = fn.term(g["sw"])
             listed = tuple(v for v, _ in t[4])
+            asm0[k] = ("not", frozenset(listed)) if lab[1] == "otherwise" else ("is", lab[1])
+    for (swb, lab) in assume:          # explicit assumptions: (switch block, label of the edge taken)
+        k = _switch_key(fn, swb)
+        if k is not None:
+            listed = tuple(v for v, _ in fn.term(swb)[4])
             asm0[k] = ("not", frozenset(listed)) if lab[1] == "otherwise" else ("is", lab[1])
     ab = set(avoid_blocks)
     init = (start, frozenset(asm0.items()))
